@@ -5,6 +5,7 @@ import random
 
 import reactive
 import vlib
+from vlib import glist
 from reactive import computations, ref_eval, tracked_only, Undefined
 
 CORPUS_DIR = os.path.join(vlib.ROOT, "corpus")
@@ -60,16 +61,36 @@ def run_spans(events):
     return done
 
 
-def late_read(events, run):
-    """did this run read a node that ran later in the same step (i.e. was still scheduled)?"""
+def late_read(events, run, prev_nodes=None):
+    """did this run read a node that ran later in the same step (i.e. was still scheduled) and to which the
+    reader was NOT subscribed when the step began? (F1 is about late *subscription*: a stale read of something the
+    reader already depended on is a different defect)"""
     later_runs = {}
     for i, l in enumerate(events):
         if l.startswith("run "):
             later_runs.setdefault(int(l.split(" ")[1]), []).append(i)
+    old_deps = None
+    # a run nested inside another run is the first run of a node created by that run: it has no old subscriptions
+    open_runs = 0
+    for l in events[:run["start"]]:
+        if l.startswith("run "):
+            open_runs += 1
+        elif l.startswith("end "):
+            open_runs -= 1
+    if prev_nodes is not None and open_runs == 0:
+        p = prev_nodes.get(run["name"])
+        if p and p.get("alive"):
+            old_deps = set(p["deps"])
     for (x, _, _, _, pos) in run["reads"]:
         if any(p > pos for p in later_runs.get(x, [])):
+            if old_deps is not None and str(x) in old_deps:
+                continue
             return x
     return None
+
+
+def prev_nodes_of(steps, k):
+    return steps[k - 1]["snap"]["nodes"] if k > 0 and steps[k - 1]["snap"] else {}
 
 
 def last_run_of(steps, upto, name):
@@ -126,7 +147,7 @@ def consistency_failures(prog, steps, only_steps=None):
                 ok = have == fresh
             if not ok:
                 ks, run = last_run_of(steps, k, name)
-                lr = late_read(steps[ks]["events"], run) if run else None
+                lr = late_read(steps[ks]["events"], run, prev_nodes_of(steps, ks)) if run else None
                 fails.append({"oracle": "consistency", "step": k, "node": name, "kind": kind, "holds": have,
                               "fresh_value": fresh, "dirty": n["dirty"],
                               "known": "F1-late-read" if lr is not None else None,
@@ -162,7 +183,7 @@ def minimise(binp, prog, failing):
 
 
 def run(pid, argv, *, module, theorems, gen, oracle, rule, nontrivial, extra_targets=(), trusted=(), assumptions=(),
-        level=None, allow_axioms=()):
+        level=None, allow_axioms=(), bridge=0):
     if level is None:
         level = "proof" if module else "other"
     a, seed = vlib.args(argv)
@@ -213,6 +234,30 @@ def run(pid, argv, *, module, theorems, gen, oracle, rule, nontrivial, extra_tar
         except RuntimeError as e:
             broken.append("model evaluation: " + str(e)[-600:])
             chk.obligation("model evaluation", False, str(e))
+
+    # model-to-model bridge: the pure-callback model on which the theorems are proved vs the runtime model
+    if bridge and model is not None:
+        pref = []
+        for _, prog in cases:
+            for i, st in enumerate(prog):
+                if st[0] == "set" and st[2][0] == "lit" and len(pref) < bridge:
+                    pref.append(prog[:i + 1])
+        try:
+            pre = reactive.PRE + "From Syc Require Import Reactive.Bridge.\n"
+            chunk = 25
+            exprs = ["bridge_run %d %s" % (reactive.FUEL, glist([reactive.cq_stmts(q) for q in pref[i:i + chunk]]))
+                     for i in range(0, len(pref), chunk)]
+            outs = vlib.coq_eval(pid + "-bridge", pre, exprs, per_file=max(1, (len(exprs) + 31) // 32))
+            verdicts = "".join(outs)
+            na, nd, nn = verdicts.count("A"), verdicts.count("D"), verdicts.count("N")
+            chk.cov["bridge"] = {"prefixes": len(pref), "agree": na, "differ": nd, "not_applicable": nn}
+            chk.obligation("bridge: pure-callback model = runtime model on %d write prefixes (%d applicable)" % (len(pref), na + nd),
+                           nd == 0 and na > 0, "first differing prefix: %s" % (reactive.sx_stmts(pref[verdicts.index("D")]) if nd else ""))
+            if nd or na == 0:
+                broken.append("bridge between ReactivePure and Reactive/Interp differs on %d prefixes" % nd)
+        except (RuntimeError, ValueError) as e:
+            chk.obligation("bridge evaluation", False, str(e))
+            broken.append("bridge evaluation: " + str(e)[-400:])
 
     findings = vlib.load_findings(pid)
     fkeys = {f["key"]: f for f in findings}
@@ -321,7 +366,7 @@ def glitch_failures(prog, steps):
                 if x in comps and comps[x][0] in ("memo", "selector"):
                     n = nodes.get(x)
                     if n and n["alive"] and n["value"] is not None and n["value"] != v:
-                        lr = late_read(st["events"], r)
+                        lr = late_read(st["events"], r, prev)
                         fails.append({"oracle": "settled-read", "step": k, "reader": r["name"], "read": x, "saw": v,
                                       "settled": n["value"], "known": "F1-late-read" if lr is not None else None})
         # (c) every top-level re-run has a trigger among its previous subscriptions
@@ -347,7 +392,7 @@ def glitch_failures(prog, steps):
                 if p["dirty"]:
                     # left dirty by an earlier propagation: the aftermath of a late subscription (F1)
                     ks, run = last_run_of(steps, k - 1, r["name"])
-                    if run and late_read(steps[ks]["events"], run) is not None:
+                    if run and late_read(steps[ks]["events"], run, prev_nodes_of(steps, ks)) is not None:
                         known = "F1-late-read"
                 fails.append({"oracle": "justified-rerun", "step": k, "node": r["name"], "previous_subscriptions": sorted(deps),
                               "fired": sorted(fired), "was_dirty": p["dirty"], "known": known})
